@@ -77,6 +77,11 @@ def run(P, R):
             'Commander.check does not call check() on every value of a copy of current_jobs')
     R.check(r1, must_call(u.node, lambda c: call_text(c) == 'self.next'), 'Commander.check ends with next()',
             'chain|Commander.check-next', u.loc(), 'Commander.check has a path that does not call next()')
+    cn = P.unit('Commander.next')
+    R.check(r1, must_call(cn.node, lambda c: call_text(c) == 'self.publish_state_modes'),
+            'Commander.next always ends by publishing the progress status', 'chain|Commander.next-publish', cn.loc(),
+            'Commander.next has a path that does not call publish_state_modes(): after abort() cleared the jobs, the '
+            'starting / stopping flag stays set for ever')
     u = P.unit('ApplicationJobs.check')
     fm = factmap(u)
     loops = [n for n in u.node.body if isinstance(n, ast.For)]
